@@ -13,7 +13,7 @@ The shapes (1 and 2 members, no nested groups) are fixed, the field numbers are 
 not weakened by the shape bound; the one-member obligation is a proof for that shape only.
 """
 PRE_STRUCTS = r'''
-struct ft_m { unsigned short _fnum; };
+struct ft_m { unsigned short _fnum; int _ftype; unsigned short _pos; unsigned short _field_traits; };   /* the key may depend on the field NUMBERS only */
 struct pres_m { struct ft_m *_arr; unsigned long _sz; };
 struct gpair_m;
 struct gmap_m { struct gpair_m *items; unsigned long n; };
@@ -22,7 +22,7 @@ struct gpair_m { unsigned first; struct mspec_m second; };                  /* s
 '''
 PRELUDE = r'''
 #define VACUITY_PROBE() __CPROVER_assert(0, "vacuity-probe")
-unsigned nondet_uint(void); unsigned short nondet_ushort(void); _Bool nondet_bool(void);
+unsigned nondet_uint(void); unsigned short nondet_ushort(void); _Bool nondet_bool(void); int nondet_int(void);
 _Bool g_no_shared_groups;
 /* ---- ASSUMED container models: iteration order of the presence set (ascending field number) and of the nested-group map ---- */
 const struct pres_m *ft_get_presence(const struct pres_m *f) { return f; }
@@ -48,9 +48,21 @@ static void mk1(struct mspec_m *m, struct ft_m *arr, unsigned n)
 void h_one_member(void)
 {
   struct ft_m a[1], b[1]; struct mspec_m p1, p2;
-  a[0]._fnum = nondet_ushort(); b[0]._fnum = nondet_ushort();
+  a[0]._fnum = nondet_ushort(); b[0]._fnum = nondet_ushort(); a[0]._ftype = nondet_int(); b[0]._ftype = nondet_int();     /* types are free: two members of the same type are still two members */
   mk1(&p1, a, 1); mk1(&p2, b, 1); g_no_shared_groups = 0;
   __CPROVER_assert(!(group_hash(&p1) == group_hash(&p2)) || a[0]._fnum == b[0]._fnum, "C14.key.one_member_definitions_with_different_members_have_different_keys");
+  VACUITY_PROBE();
+}
+/* nested groups: two definitions with the same members whose nested group (same count field) has different members must get different keys */
+void h_nested(void)
+{
+  struct ft_m a[1], b[1], na[1], nb[1]; struct mspec_m p1, p2; struct gpair_m g1[1], g2[1];
+  unsigned short m = nondet_ushort(), x = nondet_ushort(), y = nondet_ushort(); unsigned cnt = nondet_uint();
+  a[0]._fnum = m; b[0]._fnum = m; na[0]._fnum = x; nb[0]._fnum = y;
+  a[0]._ftype = nondet_int(); b[0]._ftype = nondet_int(); na[0]._ftype = nondet_int(); nb[0]._ftype = nondet_int();
+  mk1(&p1, a, 1); mk1(&p2, b, 1); mk1(&g1[0].second, na, 1); mk1(&g2[0].second, nb, 1);
+  g1[0].first = cnt; g2[0].first = cnt; p1._groups.items = g1; p1._groups.n = 1; p2._groups.items = g2; p2._groups.n = 1; g_no_shared_groups = 0;
+  __CPROVER_assert(!(group_hash(&p1) == group_hash(&p2)) || x == y, "C14.key.definitions_that_differ_only_inside_a_nested_group_have_different_keys");
   VACUITY_PROBE();
 }
 void h_two_members(void)
@@ -92,6 +104,7 @@ UNIT = dict(
     proofs=[
         dict(name='rothash', harness='h_rothash', properties=['C14'], solvers=['cadical', 'z3'], timeout=dict(quick=300, thorough=900), floor=2, level='proved'),
         dict(name='one_member', harness='h_one_member', properties=['C14'], solvers=['cadical', 'z3'], timeout=dict(quick=300, thorough=900), floor=1, level='bounded', unwind=4),
+        dict(name='nested', harness='h_nested', properties=['C14'], solvers=['cadical', 'z3'], timeout=dict(quick=300, thorough=900), floor=1, level='bounded', unwind=4),
         dict(name='two_members', harness='h_two_members', properties=['C14'], solvers=['cadical', 'z3'], timeout=dict(quick=300, thorough=900), floor=1, level='bounded', unwind=4),
     ],
     trusted_base=['ASSUMED: iteration of the presence set (ascending field number over a contiguous array) and of the nested-group map -- model bodies in specs/k_ghash.py'],
